@@ -15,6 +15,8 @@ every one of them gave VIOLATION with a replay on seed 0, quick tier:
   M9 CaseNormalizer `w.lower()` -> `w.casefold()`  ('ß' -> 'ss')                        caught (source)
   M10 _getWordIdCreate: `self._words[wid] = word` dropped for ids divisible by 5 (id -> word hole, the skip
      loop then hands the id out again later)                                            caught (getword)
+Glob classes shared with C03 (seeded C03_D / C03_E were caught here by chance of the random pool; now generated on
+purpose and measured): M11 key.lstrip(prefix), M12 range scan bounded by prefix + U+1FFFF (see props/c03.py) caught.
 """
 import re
 import sys
@@ -42,7 +44,11 @@ RULE = ("each case = one real Lexicon(*pipeline) with a pipeline of 0-4 shipped 
         "newline/tab/NBSP/U+2028, markup, accented and multi-code-point-lowering letters incl. U+0130, Kelvin "
         "sign, digits of other scripts, combining mark, astral and lone-surrogate code points, chr(254..256)); "
         "globToWordIds with patterns derived from pool words (prefix*, infix ?, several globs, leading glob, no "
-        "glob, empty) and an adversarial pool (regex metacharacters, newlines); isGlob; after writes "
+        "glob, empty) and an adversarial pool (regex metacharacters, newlines); 40% of the pools get 1-3 words in "
+        "which a prefix occurs twice and 40% get 1-3 words with a character beyond U+00FF / beyond the BMP (up to "
+        "U+323AF) after a prefix, with ?-only globs fitting only the word's tail and globs whose prefix ends before "
+        "the high character (measured quick seed 0, of 4800 cases: only a tail of a known word fits 639, match "
+        "continues beyond the BMP 282, beyond U+00FF 743); isGlob; after writes "
         "word_count/items/get_word(0..n+1)/get_wid; single pipeline elements on their own (process/processGlob). "
         "non-trivial = at least 3 words known, a glob with a non-empty answer and one differing answer")
 TRUSTED = ["character tables (\\w membership, str.lower()) are DATA computed from CPython for the alphabet in use and "
@@ -225,6 +231,65 @@ ADV_GLOBS = ["a|b*", "a|b*z", "a?", "a??", "a(*", "a(?", "a.*", "a.?", "a[*", "a
              "a\\*b", "a.", "a|b", "", "*", "?", "*a", "?a", "**", "ab", "a"]
 
 
+# words in which a prefix occurs a second time (`co?` must not match `cocoa` through its tail `coa`) and words with a
+# character beyond U+00FF / beyond the BMP right after an ASCII or BMP prefix (a prefix scan must not stop short of
+# them): U+0100, U+03A9, U+FFDC (the last BMP word character), U+10000, U+10400 (cased), U+1D400, U+1D7D9 (a digit),
+# U+20BB7, U+323AF (the last word character of all)
+TWICE_WORDS = ["cocoa", "murmur", "tartar", "bonbon", "dodo", "abab", "papaya", "banana", "mama", "x1x12", "catcat",
+               "apeape", "中文中文x"]
+HIGH_WORDS = ["x\U0001d7d9", "ab\U0001d400", "東京\U00020bb7野家", "東京都", "cat\U00010400", "ab\uffdc", "abĀ", "appΩ",
+              "x\U00010000y", "zed\U000323af", "dog\U0001d7ce\U0001d7cf", "b\U00020bb7", "café\U0001d400", "cot中",
+              "\U0001d400\U0001d401", "\U0001d400b"]
+HIGH_CHARS = ["Ā", "Ω", "中", "\uffdc", "\U00010000", "\U00010400", "\U0001d400", "\U0001d7d9", "\U00020bb7",
+              "\U000323af"]
+
+
+def twice_globs(w):
+    """globs without '*' that fit a proper tail of w starting with w's own prefix, but (mostly) not w itself"""
+    out = []
+    for k in range(1, len(w)):
+        p = w[:k]
+        j = w.find(p, 1)
+        while j > 0:
+            rest = w[j + k:]
+            if rest:
+                out.append(p + "?" * len(rest))
+                if len(rest) > 1:
+                    out.append(p + "?" + rest[1:])
+                    out.append(p + rest[:-1] + "?")
+            j = w.find(p, j + 1)
+    return out
+
+
+def glob_re(g):
+    """the glob's meaning, for measuring only (features): prefix up to the first glob character + anchored regex"""
+    i = min([g.index(c) for c in "*?" if c in g] or [len(g)])
+    pat = "".join(".*" if c == "*" else "." if c == "?" else re.escape(c) for c in g)
+    return g[:i], re.compile(pat + r"\Z", re.DOTALL)
+
+
+def glob_classes(g, vocab):
+    """which of the discriminating situations a glob meets in a vocabulary"""
+    if not re.search(r"[*?]", g) or g[0] in "*?":
+        return []
+    prefix, prog = glob_re(g)
+    f = []
+    if "*" not in g:
+        f.append("glob:qmark-only")
+    for w in vocab:
+        if not w.startswith(prefix):
+            continue
+        if not prog.match(w) and re.search(prog.pattern, w, re.DOTALL):
+            f.append("glob:only-a-tail-of-a-word-fits(search!=match)")
+        if prog.match(w) and len(w) > len(prefix):
+            o = ord(w[len(prefix)])
+            if o > 0xFFFF:
+                f.append("glob:match-continues-beyond-BMP")
+            elif o > 0xFF:
+                f.append("glob:match-continues-beyond-U+00FF")
+    return sorted(set(f))
+
+
 def gen_word(rng):
     n = rng.choice([1, 1, 2, 2, 3, 3, 4, 5])
     r = rng.random()
@@ -250,6 +315,20 @@ def gen_pool(rng, size):
         pool.append(w)
         for _ in range(rng.choice([0, 0, 1, 2])):
             pool.append(related(rng, w))
+    # the classes a glob scan can get wrong: a prefix that occurs twice in a word; a character beyond U+00FF / beyond
+    # the BMP right after a prefix
+    if rng.random() < 0.4:
+        for _ in range(rng.randrange(1, 4)):
+            w = rng.choice(pool) or "a"
+            k = rng.randrange(1, min(len(w), 3) + 1)
+            pool.append(rng.choice(TWICE_WORDS) if rng.random() < 0.4 else
+                        w[:k] + rng.choice(["", "x", w[k:]]) + w[:k] + rng.choice(["a", "1", w[k:k + 1] + "z", w[-1:]]))
+    if rng.random() < 0.4:
+        for _ in range(rng.randrange(1, 4)):
+            w = rng.choice(pool) or "a"
+            k = rng.randrange(1, len(w) + 1)
+            pool.append(rng.choice(HIGH_WORDS) if rng.random() < 0.4 else
+                        w[:k] + rng.choice(HIGH_CHARS) + rng.choice(["", "", w[k:], "z"]))
     return pool
 
 
@@ -284,6 +363,16 @@ def gen_glob(rng, pool, adversarial):
     if adversarial and rng.random() < 0.55:
         return rng.choice(ADV_GLOBS)
     w = rng.choice(pool) or "a"
+    special = [x for x in pool if x and (twice_globs(x) or any(ord(c) > 0xFF for c in x[1:]))]
+    if special and rng.random() < 0.3:
+        w = rng.choice(special)
+        tw = twice_globs(w)
+        hi = [i for i, c in enumerate(w) if i > 0 and ord(c) > 0xFF]
+        if tw and (not hi or rng.random() < 0.5):
+            return rng.choice(tw)
+        if hi:
+            i = rng.choice(hi)
+            return w[:i] + rng.choice(["*", "?" + w[i + 1:], "?" * (len(w) - i), "*" + w[-1:], "?*", "*?"])
     r = rng.random()
     k = rng.randrange(0, len(w) + 1)
     if r < 0.25:
@@ -420,6 +509,13 @@ def features(case, outs):
     pl = cfgdict(case)
     f = ["pipeline:" + ("+".join(pl) if pl in SHIPPED else "other-%d" % len(pl))]
     maxid = 0
+    # vocabulary at the time of a glob, for measuring only: the words of the final items() whose id was handed out by
+    # then (not meaningful when a transaction was aborted: ids are handed out again)
+    final = {}
+    if not any(c[0] == "abort" for c in case["cmds"]):
+        for c, o in zip(case["cmds"], outs):
+            if c[0] == "items" and o.startswith("["):
+                final = {dec(t.rsplit(":", 1)[0]): int(t.rsplit(":", 1)[1]) for t in o[1:-1].split()}
     for c, o in zip(case["cmds"], outs):
         op = c[0]
         if o.startswith("err"):
@@ -448,6 +544,7 @@ def features(case, outs):
                 f.append("glob:newline-in-pattern")
             if re.search(r"[*?].*[^*?]", p):
                 f.append("glob:literal-after-glob")
+            f += glob_classes(p, [w for w, i in final.items() if i <= maxid])
         elif op == "parse":
             ws = [dec(w) for w in o[1:-1].split()]
             f.append("parse:%s" % ("empty" if not ws else "has-glob" if any("*" in w or "?" in w for w in ws) else "plain"))
@@ -462,6 +559,9 @@ def features(case, outs):
                      ("astral", "\U0001f600"), ("markup", "<"), ("entity", "&")):
         if ch in txt:
             f.append("text-has:" + name)
+    for k in sorted(set(f)):
+        if k.startswith("glob:") and ("beyond" in k or "tail" in k or "qmark" in k):
+            f.append("case:" + k)
     return f
 
 
